@@ -267,6 +267,10 @@ func (s *Service) validateAttestationData(_ context.Context,
 	duty *attester.Duty,
 	attestationData *phase0.AttestationData,
 ) error {
+	if attestationData == nil || attestationData.Source == nil || attestationData.Target == nil {
+		return fmt.Errorf("attestation request for slot %d returned incomplete data", duty.Slot())
+	}
+
 	if attestationData.Slot != duty.Slot() {
 		return fmt.Errorf("attestation request for slot %d returned data for slot %d", duty.Slot(), attestationData.Slot)
 	}
